@@ -43,6 +43,59 @@ class Resolver:
         return self.defs.get(lid)
 
 
+class AlphaResolver(Resolver):
+    """a Resolver that also renames every remaining local (pattern-bound, mutable, parameters) to v1, v2, ... in order of
+    first binding, for comparing two functions up to the names of their locals"""
+
+    def __init__(self, fn):
+        Resolver.__init__(self, fn)
+        self.alpha = {}
+        for p_ in fn.get("params", []):
+            self._pat(p_["pat"])
+        for x in hirq.walk(fn["hir"]):
+            for key in ("pat",):
+                if isinstance(x.get(key), dict):
+                    self._pat(x[key])
+            if x["k"] == "Match":
+                for a in x["arms"]:
+                    self._pat(a["pat"])
+            if x["k"] == "Closure":
+                for p_ in x["params"]:
+                    self._pat(p_)
+
+    def _pat(self, p_):
+        k = p_["k"]
+        if k == "Bind":
+            if p_["id"] not in self.alpha and p_["name"] != "self":
+                self.alpha[p_["id"]] = "v%d" % (len(self.alpha) + 1)
+            if "sub" in p_:
+                self._pat(p_["sub"])
+        elif k in ("Tuple", "TupleStruct", "Or"):
+            for q in p_["subs"]:
+                self._pat(q)
+        elif k == "Struct":
+            for f in p_["fields"]:
+                self._pat(f["pat"])
+        elif k in ("Ref", "Deref"):
+            self._pat(p_["sub"])
+
+    def pat(self, p_):
+        k = p_["k"]
+        if k == "Bind":
+            return self.alpha.get(p_["id"], p_["name"])
+        if k == "Wild":
+            return "_"
+        if k == "Tuple":
+            return "(" + ", ".join(self.pat(x) for x in p_["subs"]) + ")"
+        if k == "TupleStruct":
+            return hirq.respath(p_["res"]).split("::")[-1] + "(" + ", ".join(self.pat(x) for x in p_["subs"]) + ")"
+        if k == "Ref":
+            return "&" + self.pat(p_["sub"])
+        if k == "Struct":
+            return hirq.respath(p_["res"]).split("::")[-1] + "{" + ", ".join(self.pat(f["pat"]) for f in p_["fields"]) + "}"
+        return hirq.show_pat(p_)
+
+
 def nf(n, casts=False, alias=None, res=None, _depth=0):
     """canonical string of an expression; locals by name; refs/derefs/clones dropped.
     casts=True also drops `as` casts. alias: dict field name -> canonical field name.
@@ -63,10 +116,12 @@ def nf(n, casts=False, alias=None, res=None, _depth=0):
                 return v
         return v
     if k == "Path":
-        res = n["res"]
-        if "local" in res:
-            return res["name"]
-        return res.get("path", "?")
+        res_ = n["res"]
+        if "local" in res_:
+            if res is not None and getattr(res, "alpha", None) and res_["local"] in res.alpha:
+                return res.alpha[res_["local"]]
+            return res_["name"]
+        return res_.get("path", "?")
     if k == "Field":
         name = n["name"]
         if alias and name in alias:
@@ -99,12 +154,13 @@ def nf(n, casts=False, alias=None, res=None, _depth=0):
         return hirq.respath(n["res"]) + "{" + ", ".join(f["name"] + ":" + r(f["e"]) for f in n["fields"]) + "}"
     if k == "If":
         return "if " + r(n["c"]) + " {" + r(n["t"]) + "}" + (" else {" + r(n["e"]) + "}" if "e" in n else "")
+    sp_ = res.pat if (res is not None and hasattr(res, "pat")) else hirq.show_pat
     if k == "Closure":
-        return "|" + ",".join(hirq.show_pat(p) for p in n["params"]) + "| " + r(n["body"])
+        return "|" + ",".join(sp_(p) for p in n["params"]) + "| " + r(n["body"])
     if k == "Block":
         return "{" + "; ".join(r(s) for s in n["stmts"] if not hirq.in_log_macro(s)) + ("; " + r(n["expr"]) if "expr" in n else "") + "}"
     if k == "Let":
-        return "let " + hirq.show_pat(n["pat"]) + (" = " + r(n["init"]) if "init" in n else "")
+        return "let " + sp_(n["pat"]) + (" = " + r(n["init"]) if "init" in n else "")
     if k == "Assign":
         return r(n["l"]) + " = " + r(n["r"])
     if k == "AssignOp":
@@ -120,11 +176,11 @@ def nf(n, casts=False, alias=None, res=None, _depth=0):
     if k == "Repeat":
         return "[" + r(n["e"]) + "; _]"
     if k == "Match":
-        return "match " + r(n["e"]) + " {" + ", ".join(hirq.show_pat(a["pat"]) + " => " + r(a["body"]) for a in n["arms"]) + "}"
+        return "match " + r(n["e"]) + " {" + ", ".join(sp_(a["pat"]) + " => " + r(a["body"]) for a in n["arms"]) + "}"
     if k == "Loop":
         return "loop[" + n["src"] + "] " + r(n["body"])
     if k == "LetExpr":
-        return "let " + hirq.show_pat(n["pat"]) + " = " + r(n["init"])
+        return "let " + sp_(n["pat"]) + " = " + r(n["init"])
     return "<" + k + ">"
 
 
